@@ -125,6 +125,7 @@ Proof.
   destruct (es_obj sn) as [e|] eqn:Eo; [|inversion H; subst; apply ES_absent; auto].
   destruct (is_defaulted e) eqn:Ed; cbn [negb] in H; [|inversion H; subst; eapply ES_default; eauto].
   destruct (validate (e_strategy e)) as [[]|c|c] eqn:Ev; try discriminate.
+  destruct (es_fail_list_rs sn); [discriminate|].
   destruct (last_such (rs_up_to_date e) (rs_of_eds e (es_rss sn))) as [uptodate|] eqn:Eu;
     [|inversion H; subst; eapply ES_create; eauto].
   destruct (select_current _ _ _ uptodate (es_now sn)) as [current rq] eqn:Es.
